@@ -16,7 +16,7 @@ func init() {
 		Rule: "one execution = one packet of the reduced C01 space x one prior buffer content; inside it every destination length 0..MarshalSize()+3 is tried for Packet.MarshalTo and Header.MarshalTo (each length is one case); non-trivial = packet has extension padding or RTP padding",
 		Assumptions: []string{
 			"reduced packet space keeps every size-affecting dimension: CSRC {0,1,15}, extension blocks with 0-3 bytes of 32-bit rounding, payload {0,1,5}, RTP padding {none,1,2,5,255}; thorough uses the full C01 quick space",
-			"in place: the destination previously contained the packet itself - the packet is parsed from a buffer (its extension values and payload are views into it), one fixed field is changed (none / sequence number / marker / SSRC / timestamp), and it is serialised back into that same buffer, of exactly MarshalSize() bytes or with 3 more",
+			"in place: the destination previously contained the packet itself - the packet is parsed from a buffer (its extension values and payload are views into it), one fixed field is changed (none / sequence number / marker / SSRC / timestamp), and it is serialised back into that same buffer, of exactly MarshalSize() bytes or with 3 more; the RTP padding filler bytes of the parsed image are zero or DE",
 			"prior destination contents: all 00, all FF, all A5, i -> i; destinations with capacity == length and windows into a larger array (length < capacity: nothing behind the window may change)",
 		},
 		Scenarios: []mc.Scenario{
@@ -138,6 +138,12 @@ func c04InPlace(c *mc.Ctx) {
 		c.Failf("marshal-failed", "%s: Marshal: %v", describeWire(w), err)
 	}
 	raw := append(clone(img), 0xE1, 0xE2, 0xE3)[:len(img)+extra]
+	if w.PadSize > 1 && c.Bool() {
+		// RTP padding filler is arbitrary on the wire; Marshal writes zeros
+		for i := len(img) - int(w.PadSize); i < len(img)-1; i++ {
+			raw[i] = 0xDE
+		}
+	}
 	var q rtp.Packet
 	if err := q.Unmarshal(raw[:len(img)]); err != nil {
 		c.Failf("marshal-failed", "%s: Unmarshal of the packet's own serialisation: %v", describeWire(w), err)
@@ -161,12 +167,13 @@ func c04InPlace(c *mc.Ctx) {
 	if c.Verbose() {
 		c.Notef("packet: %s; field touched %d; destination = source buffer + %d bytes", describeWire(w), touch, extra)
 	}
+	before := clone(raw)
 	if c.Bool() {
 		n, err := q.Header.MarshalTo(raw)
 		if err != nil || n != len(hwant) || !bytes.Equal(raw[:n], hwant) {
 			c.Failf("marshalto-differs-from-marshal", "%s: Header.MarshalTo into the buffer the packet was parsed from (field touched %d) wrote %s (n=%d, %v), Marshal() gives %s", describeWire(w), touch, hx(raw[:minI(n, len(raw))]), n, err, hx(hwant))
 		}
-		if !bytes.Equal(raw[n:len(img)], img[n:]) || !bytes.Equal(raw[len(img):], []byte{0xE1, 0xE2, 0xE3}[:extra]) {
+		if !bytes.Equal(raw[n:], before[n:]) {
 			c.Failf("wrote-beyond", "%s: Header.MarshalTo in place changed bytes beyond the header", describeWire(w))
 		}
 	} else {
